@@ -120,8 +120,10 @@ def evaluate(case, out):
     WO, IRV = neb, nen
     if case["via_json"]:
         js, asr = [], {}
-        for (l, w, p) in neb:
-            js.append({"winner": w, "loser": l, "assertion_type": "WINNER_ONLY", "already_eliminated": ""})
+        for i, (l, w, p) in enumerate(neb):
+            # "nobody eliminated" is written "" by the RAIRE exporter; an empty list says the same and is what other
+            # writers of the format (and a JSON round trip through typed tools) produce
+            js.append({"winner": w, "loser": l, "assertion_type": "WINNER_ONLY", "already_eliminated": "" if (i + len(cands)) % 3 else []})
             asr[f"{w} v {l}"] = {"winner": w, "loser": l, "proved": p}
         for (c, E, p) in nen:
             js.append({"winner": c, "loser": "?", "assertion_type": "IRV_ELIMINATION", "already_eliminated": sorted(E)})
